@@ -127,14 +127,14 @@ def route_obs(vec):
                 got = base64.b64decode(uri.split(',', 1)[1])
             else:
                 uri = qr.svg_data_uri(**kw)
-                enc = kw.get('encoding', 'utf-8')
+                enc = kw.get('encoding', 'utf-8') or 'utf-8'      # encoding=None: UTF-8 without declaration
                 o['prefix_ok'] = uri.startswith('data:image/svg+xml;charset=' + enc + ',')
                 got = canonical_xml(urllib.parse.unquote_to_bytes(uri.split(',', 1)[1]).decode(enc).encode('utf-8'))
                 # the reference was canonicalised from its own encoding as well
                 if enc != 'utf-8' and o['ref']['status'] == 'ok':
                     o['ref'] = digest(canonical_xml(save_stream(qr, kind, ref_kw).decode(enc).replace('encoding="%s"' % enc, 'encoding="utf-8"').encode('utf-8')))
         elif route == 'inline':
-            got = qr.svg_inline(**kw).encode(kw.get('encoding', 'utf-8'))
+            got = qr.svg_inline(**kw).encode(kw.get('encoding', 'utf-8') or 'utf-8')
         elif route == 'svgz_file':
             p = os.path.join(tmp, 'out.svgz')
             qr.save(p, **kw)
@@ -271,6 +271,17 @@ def other_observations(tier):
         o = route_obs_extra(vec, extra)
         o['_what'] = f'svg via data_uri with {extra}'
         obs.append(o)
+    # encoding=None (UTF-8 document without an encoding declaration, tests/test_svg.py::test_encoding_none) through every SVG route
+    for route, forced in (('path', []), ('stream', []), ('svgz_file', []), ('svgz_stream', []), ('inline', ['xmldecl_false', 'svgns_false', 'nl_false']),
+                          ('data_uri', ['xmldecl_false', 'nl_false']), ('data_uri', ['nl_false'])):
+        for more in ({}, {'title': 'T\xe4'}):
+            extra = dict({'encoding': None}, **more)
+            if route == 'data_uri' and 'xmldecl_false' not in forced:
+                extra['xmldecl'] = True
+            vec = {'kind': 'svg', 'route': route, 'opts': [], 'given': [], 'forced': forced}
+            o = route_obs_extra(vec, extra)
+            o['_what'] = f'svg via {route} with {extra}'
+            obs.append(o)
     return obs
 
 
